@@ -45,7 +45,9 @@ def write_adf11(d, path, element_name):
         s += "--------------------/ IPRT= 1  / IGRD= 1  /--------/ Z1=%2d   / DATE= 01/01/01\n" % b
         vals = [v11(b, it, idn) for it in range(1, d["nt"] + 1) for idn in range(1, d["nd"] + 1)]
         s += per_line(vals, "%10.5f", 8)
-    s += "C" + "-" * 79 + "\nC\nC  synthetic file\nC\n" + "C" + "-" * 79 + "\n"
+    s += "C" + "-" * 79 + "\n"
+    if d.get("tail", "comments") == "comments":
+        s += "C\nC  synthetic file\nC\n" + "C" + "-" * 79 + "\n"
     open(path, "w").write(s)
 
 
